@@ -38,6 +38,10 @@ func InitializeRunningEventFilter(database db.KeyValueStore) (*core.RunningEvent
 		return nil, fmt.Errorf("getting stored running event filter: %w", err)
 	}
 	if err == nil {
+		// Consume the snapshot, see core.InitializeRunningEventFilter.
+		if err := core.DeleteRunningEventFilter(database); err != nil {
+			return nil, fmt.Errorf("consuming stored running event filter: %w", err)
+		}
 		next, err := stored.NextBlock()
 		if err != nil {
 			return nil, fmt.Errorf("reading stored next block: %w", err)
